@@ -392,6 +392,85 @@ def _configured_word(P, rec):
     return (n > 0), ('%d call(s) of the name-storing function, all behind the word test' % n if n else 'no function stores that name')
 
 
+def configured_member_words(P, R, rule='C09.FMT.3'):
+    """A member of the request that is sent as a bare word (the class of the verdict line) and is filled from a
+    CONFIGURED text (a class rule's class, or its name by default): the configuration may hold any string - blanks, an
+    escaped newline - so the text is checked to be a single non-empty word where it is taken from the configuration:
+    every store into the members of the configured record that the copy reads is reached only behind a test of the
+    first character and a search for blanks and line ends that found nothing, made on the text that will be used."""
+    words = set()
+    for f in P.fns.values():
+        for s in f.calls('iauth_send'):
+            fmt = rules.fmt_literal(s.ev, 1) or ''
+            ws = fmt.split(' ')
+            for j, w in enumerate(ws[1:]):
+                if w == '%s':
+                    k = 2 + sum(1 for x in ws[1:1 + j] if '%' in x)
+                    if k < len(s.ev['args']):
+                        a = s.ev['args'][k]
+                        if isinstance(a, dict) and a.get('k') == 'mem' and a.get('rec') == core.REQ_REC:
+                            words.add(a['field'])
+    n = 0
+
+    def leaves(f, e, depth=0):
+        while isinstance(e, dict) and e.get('k') == 'cast':
+            e = e.get('e')
+        if isinstance(e, dict) and e.get('k') == 'cond':
+            return leaves(f, e.get('t'), depth) + leaves(f, e.get('f'), depth)
+        if is_var(e) and e.get('sc') == 'local' and depth < 4:
+            out = []
+            for d in f.local_defs(e['name']):
+                v = d.ev.get('rhs') if d.ev['k'] == 'store' else d.ev.get('init')
+                if isinstance(v, dict) and d.ev.get('op', '=') == '=':
+                    out += leaves(f, v, depth + 1)
+            return out or [e]
+        if isinstance(e, dict) and e.get('k') == 'callref' and e.get('callee') in ('xstrdup', 'strdup') and e.get('args'):
+            return leaves(f, e['args'][0], depth)
+        return [e]
+    for f in P.fns.values():
+        for s in f.calls():
+            if s.ev.get('callee') not in ('strlcpy', 'strncpy', 'strcpy', 'memcpy', 'snprintf') or len(s.ev['args']) < 2:
+                continue
+            d = s.ev['args'][0]
+            if not (isinstance(d, dict) and d.get('k') == 'mem' and d.get('rec') == core.REQ_REC and d.get('field') in words):
+                continue
+            src = s.ev['args'][-1] if s.ev['callee'] == 'snprintf' else s.ev['args'][1]
+            lv = [x for x in leaves(f, src) if isinstance(x, dict) and x.get('k') == 'mem' and x.get('rec') and x.get('rec') != core.REQ_REC]
+            if not lv:
+                continue
+            rec = lv[0]['rec']
+            fields = sorted({x['field'] for x in lv})
+            # the stores that fill those members of the configured record
+            for g in P.fns.values():
+                for t in g.stores():
+                    ev = t.ev
+                    if not (ev['k'] == 'store' and ev.get('op') == '=' and ev['lhs'].get('k') == 'mem' and ev['lhs'].get('rec') == rec and ev['lhs'].get('field') in fields):
+                        continue
+                    if const_of(ev.get('rhs')) == 0:
+                        continue
+                    stored = {sx(x) for x in leaves(g, ev.get('rhs'))}
+                    gs = g.guards(t.bid)
+                    cands = {}
+                    for q in gs:
+                        l = q[0]
+                        if not isinstance(l, dict):
+                            continue
+                        if l.get('k') == 'idx' and const_of(l.get('index')) == 0 and q[1] == '!=' and const_of(q[2]) == 0:
+                            cands.setdefault(sx(l['base']), [l['base'], False, set()])[1] = True
+                        if l.get('k') == 'callref' and l.get('callee') in ('strpbrk', 'strchr') and l.get('args') and q[1] == '==' and const_of(q[2]) == 0:
+                            a0, a1 = l['args'][0], l['args'][1]
+                            cs = set(a1['v']) if a1.get('k') == 'str' else {chr(const_of(a1))} if isinstance(const_of(a1), int) else set()
+                            cands.setdefault(sx(a0), [a0, False, set()])[2] |= cs
+                    ok = False
+                    for key_, (e_, nonempty, chars) in cands.items():
+                        if nonempty and {' ', '\n'} <= chars and stored & {sx(x) for x in leaves(g, e_)}:
+                            ok = True
+                    n += 1
+                    R.ob(rule, ok, t, 'the configured text stored in %s.%s (sent as the word %s of a message) was checked to be one non-empty word free of blanks and line ends' % (rec, ev['lhs']['field'], d['field']),
+                         key='word-member-configured:%s:%s' % (d['field'], ev['lhs']['field']))
+    return n
+
+
 def word_parameters(P, R, rule='C09.FMT.3'):
     """A message whose parameter is a bare word ("U <name>", "N <host>", "M <modes>" - a `%s` not introduced by a colon)
     is only well formed when the word is there: the functions that send such a message with one of their own parameters
@@ -491,4 +570,6 @@ def run(P, R, tier):
     from .. import bnd as _bnd
     _bnd.check_scope(P, R, 'C09.BND.2', _bnd.reader_scope(P))
     word_parameters(P, R)
+    if not configured_member_words(P, R):
+        raise AnalysisBroken('no request member sent as a word is filled from a configured text')
     return EXPLANATION, ASSUMPTIONS
